@@ -72,16 +72,18 @@ func (s Spec) conf(k, def string) string {
 }
 
 type H struct {
-	T       *testing.T
-	W       *sim.World
-	Spec    Spec
-	Apps    map[string]*App
-	inc     map[string]int
-	ids     map[*App]string
-	hc      map[*App]*hcState
-	LogPath string // replay: daemon log goes here at debug level
-	dead    []*App
-	clis    []*App
+	T          *testing.T
+	W          *sim.World
+	Spec       Spec
+	Apps       map[string]*App
+	inc        map[string]int
+	ids        map[*App]string
+	hc         map[*App]*hcState
+	LogPath    string // replay: daemon log goes here at debug level
+	dead       []*App
+	clis       []*App
+	daemons    map[string]*daemon
+	allDaemons []*daemon
 }
 
 type hcState struct {
@@ -114,6 +116,11 @@ func Bubble(t *testing.T, spec Spec, f func(h *H)) {
 }
 
 func (h *H) teardown() {
+	h.W.Chooser = nil
+	h.W.OnIdle = nil
+	if len(h.allDaemons) > 0 {
+		h.stopDaemons()
+	}
 	for _, a := range h.Apps {
 		h.closeApp(a)
 	}
@@ -608,7 +615,6 @@ func (h *H) Writable() []string {
 	sort.Strings(r)
 	return r
 }
-
 
 // PanicWhere extracts the repository frames of the recorded panic stacks.
 func (h *H) PanicWhere() string {
